@@ -109,6 +109,15 @@ def approx(a, b, kind=True):
     return a == b
 
 
+def nonfinite(c):
+    """undefined, infinite or not-a-number anywhere in the result (what a division by zero leaves behind)"""
+    if c[0] == "l":
+        return any(nonfinite(x) for x in c[1])
+    if c[0] == "r":
+        return c[1] != c[1] or c[1] in (float("inf"), float("-inf"))
+    return c[0] == "x" and "Undefined" in str(c[1])
+
+
 def spec_c8(v):
     t = v["t"]
     if t == "i":
@@ -193,6 +202,7 @@ def run(tier, seed):
                       " - numpy deviates from KgEval" if approx(e8, got["torch"], kind=(bad == "KindsDiffer")) else ""
         ops = sorted(ops_of(c["ast"]))
         case = {"clause": bad, "src": src, "cls": c["cls"], "ops": ops, "top": top_of(c["ast"]),
+                "nonfinite": any(nonfinite(got[be]) for be in got),
                 "what": f"a::{canon.render(c['env']['a'])};b::{canon.render(c['env']['b'])};{src}: numpy gives "
                         f"{show(got['numpy']) if got['numpy'][0] != 'exc' else got['numpy'][1]}, torch gives "
                         f"{show(got['torch']) if got['torch'][0] != 'exc' else got['torch'][1]} [{bad}{culprit}]"
@@ -257,6 +267,8 @@ def matcher(f, case):
     if "ops_subset" in m and not (set(case["ops"]) <= set(m["ops_subset"])):
         return False
     if "classes" in m and case["cls"] not in m["classes"]:
+        return False
+    if "nonfinite" in m and bool(case.get("nonfinite")) != bool(m["nonfinite"]):
         return False
     return True
 
